@@ -150,7 +150,15 @@ func supervise(ctx *Ctx) int {
 	run.Distinct("monitor-death-a")
 	run.Distinct("monitor-death-b")
 	run.Sample(map[string]any{"monitor_process_exit": code})
-	run.Violate(fmt.Sprintf("%s/monitor-process-death/%s", ctx.ID, kind),
+	sig := fmt.Sprintf("%s/monitor-process-death/%s", ctx.ID, kind)
+	if code == guardExit {
+		for _, k := range []string{"blocked", "spinning"} {
+			if strings.Contains(stderr, "call-into-vegeta-never-returns/"+k) {
+				sig = fmt.Sprintf("%s/call-into-vegeta-never-returns/%s", ctx.ID, k)
+			}
+		}
+	}
+	run.Violate(sig,
 		fmt.Sprintf("the monitor process died (exit %d, %s) while running vegeta code: %s", code, kind, lastLines(stderr, 12)),
 		map[string]any{"exit": code, "stderr_tail": stderr})
 	return run.Finish()
